@@ -54,7 +54,11 @@ func c09DecoderCuts(t *testing.T, R *ev.Run) {
 		rs   []vegeta.Result
 		all  bool // every offset (else: around record ends and a coarse grid)
 	}
-	streams := []stream{{"small", []vegeta.Result{p[1], p[4], p[5]}, true}, {"huge-first", []vegeta.Result{huge, p[1], p[4]}, false}, {"huge-second", []vegeta.Result{p[1], huge, p[4]}, false}}
+	// a response body that itself consists of JSON object lines (an NDJSON API): gob stores it raw
+	nd := p[1]
+	nd.Body = []byte("{\"code\":503,\"error\":\"upstream 1 down\"}\n{\"code\":200,\"latency\":5}\n{\"seq\":7}\n")
+	nd.BytesIn = uint64(len(nd.Body))
+	streams := []stream{{"small", []vegeta.Result{p[1], p[4], p[5]}, true}, {"json-lines-in-body", []vegeta.Result{nd, p[4], nd}, true}, {"huge-first", []vegeta.Result{huge, p[1], p[4]}, false}, {"huge-second", []vegeta.Result{p[1], huge, p[4]}, false}}
 	type job struct {
 		si  int
 		enc string
